@@ -76,6 +76,12 @@ package standard
 //@ hint-after getGeneration@1 [ginv] result1 == nil ==> genInv(result0)
 
 // ---- threshold bound (C12 clause i, C14) ----
+//@ loop #1
+//@ invariant [lens] len(sks) == threshold && len(verificationKeys) == threshold && fresh(sks) && fresh(verificationKeys) && threshold == generation.threshold
+//@ loop #2
+//@ invariant [lens] len(verificationKeys) == threshold && fresh(verificationKeys) && threshold == generation.threshold && secrets != nil && fresh(secrets)
+//@ loop #3
+//@ invariant [lens] len(verificationKeys) == threshold && fresh(verificationKeys) && threshold == generation.threshold && secrets != nil && fresh(secrets)
 
 //@ func (*Service).generate
 // (assumed, not verified: goroutines, WaitGroup and a channel range) every returned endpoint is a non-nil peer record
